@@ -18,6 +18,10 @@ pub enum Strategy {
     Pct { depth: u8, horizon: u32 },
     /// sticky, but prefers to preempt right after a lock release
     Targeted,
+    /// PCT whose priority change points are counted in events other than identifier interning
+    /// (four steps in five of a compilation are interning points; a stall placed by raw step
+    /// number mostly lands on one of them instead of inside a clone, drop, call or lock window)
+    PctX { depth: u8, horizon: u32 },
 }
 
 impl Strategy {
@@ -27,6 +31,7 @@ impl Strategy {
             Strategy::Sticky { stay } => format!("sticky{stay}"),
             Strategy::Pct { depth, horizon } => format!("pct{depth}/{horizon}"),
             Strategy::Targeted => "targeted".into(),
+            Strategy::PctX { depth, horizon } => format!("pctx{depth}/{horizon}"),
         }
     }
     pub fn parse(s: &str) -> Option<Strategy> {
@@ -38,6 +43,13 @@ impl Strategy {
         }
         if let Some(r) = s.strip_prefix("sticky") {
             return r.parse().ok().map(|stay| Strategy::Sticky { stay });
+        }
+        if let Some(r) = s.strip_prefix("pctx") {
+            let (d, h) = r.split_once('/')?;
+            return Some(Strategy::PctX {
+                depth: d.parse().ok()?,
+                horizon: h.parse().ok()?,
+            });
         }
         if let Some(r) = s.strip_prefix("pct") {
             let (d, h) = r.split_once('/')?;
@@ -81,6 +93,9 @@ struct Inner {
     change_points: Vec<u64>,
     decisions: Vec<u8>,
     step: u64,
+    /// events other than interning points
+    xstep: u64,
+    quiet_next: bool,
     step_cap: u64,
     hash: u64,
     sig_hash: u64,
@@ -112,6 +127,8 @@ impl Inner {
             change_points: Vec::new(),
             decisions: Vec::new(),
             step: 0,
+            xstep: 0,
+            quiet_next: false,
             step_cap: 0,
             hash: 0,
             sig_hash: 0,
@@ -131,6 +148,9 @@ impl Inner {
     }
     fn event(&mut self, tid: usize, kind: u8, obj: u32) {
         self.step += 1;
+        if !std::mem::take(&mut self.quiet_next) {
+            self.xstep += 1;
+        }
         alloc::CUR_STEP.store(self.step, Relaxed);
         let hb = HEARTBEAT.load(Relaxed);
         if !hb.is_null() {
@@ -200,9 +220,9 @@ impl Inner {
                         }
                     }
                 }
-                Strategy::Pct { .. } => {
+                Strategy::Pct { .. } | Strategy::PctX { .. } => {
                     // priority change points: the running thread drops to a fresh lowest priority
-                    let step = self.step;
+                    let step = if matches!(self.strategy, Strategy::PctX { .. }) { self.xstep } else { self.step };
                     let mut k = 0;
                     while k < self.change_points.len() {
                         if self.change_points[k] <= step {
@@ -366,6 +386,7 @@ fn point_kind(site: &'static str, kind: u8) {
     }
     let sid = site_id(&mut g, site);
     *g.max_sites.entry(site).or_insert(0) += 1;
+    g.quiet_next = site == "intern";
     g.event(me, kind, sid);
     s.hand_over(g, me, kind);
 }
@@ -485,7 +506,7 @@ pub fn run_sim(cfg: SimCfg, bodies: Vec<Body>) -> SimOutcome {
         g.replay = cfg.replay.clone();
         g.step_cap = cfg.step_cap;
         g.keep_trace = cfg.keep_trace;
-        if let Strategy::Pct { depth, horizon } = cfg.strategy {
+        if let Strategy::Pct { depth, horizon } | Strategy::PctX { depth, horizon } = cfg.strategy {
             // distinct random priorities
             let mut p: Vec<i64> = (0..n as i64).map(|i| i + 10).collect();
             for i in (1..n).rev() {
